@@ -117,7 +117,7 @@ func DefaultGenesis() GenesisSpec {
 		Staking:    StakingOpt{MinSelf: 3, MinDeleg: 1, Top: 2, Maturity: 2},
 		Evidence:   EvidenceOpt{MinVotesRequired: 2, BlockVotesDiff: 4, PenaltyBasePct: 30, PenaltyBountyPct: 50, PenaltyBurnPct: 50, ReleaseDays: 0, VotePct: 50, AllegationPct: 50},
 		Proposal:   ProposalOpt{InitialFunding: 1000, FundingGoal: 5000, FundingDeadline: 4, VotingDeadline: 4, PassPct: 51},
-		Rewards:    RewardsOpt{Interval: 3, SecondsPerCycle: 30, Cycle: 3, YearCloseWindow: 20, YearShares: []int64{600000, 400000}, Burnout: 50},
+		Rewards:    RewardsOpt{Interval: 3, SecondsPerCycle: 3000000, Cycle: 3, YearCloseWindow: 1000000, YearShares: []int64{600000, 400000}, Burnout: 50},
 		Ons:        OnsOpt{PerBlock: 10, Base: 1000},
 		RewardPool: 100000000, MaxGas: -1, EthSupplyCap: "2000000000",
 	}
